@@ -723,7 +723,7 @@ def vy_eval_model(chk, repo, helpers, ve):
         def get(self, attr):
             return self.rec.fn(f"{self._name}.{attr}")
 
-    def run(behave):
+    def run(behave, text=MARK):
         log = []
         rec = _Recorder(log, behave)
         it = Interp(repo)
@@ -743,7 +743,7 @@ def vy_eval_model(chk, repo, helpers, ve):
             raise AnalysisError(f"anchor vanished: {exc}") from None
         ctx.d["online"] = True
         try:
-            return ("returned", f(MARK, ctx)), log
+            return ("returned", f(text, ctx)), log
         except PRaise as exc:
             return ("raised", f"{exc.cls_name}{exc.pargs}"), log
         except Unsupported as exc:
@@ -761,10 +761,17 @@ def vy_eval_model(chk, repo, helpers, ve):
         "literal is a list": {"ast.literal_eval": ("return", [1, [2.5]]),
                               "vyxalify": ("return", [1])},
     }
+    # the marked text alone, and behind prefixes that look like the literals
+    # a fast path might test for (a fraction, a number, a list, ...)
+    texts = [MARK] + [p_ + MARK for p_ in (
+        "1/3+", "1 ", "-2/4 if 1 else ", "1e3+", "[1, ", "0x1f;", "1.5*",
+        "'a'+", "(1)/(2)+", "1/3\n")]
     callees = set()
     n_runs = 0
-    for label, behave in nominal.items():
-        (how, val), log = run(behave)
+    for label, behave in [(lb, bh) for lb, bh in nominal.items()
+                          for _ in texts]:
+        text = texts[n_runs % len(texts)]
+        (how, val), log = run(behave, text)
         n_runs += 1
         callees |= {name for name, _ in log}
         for name, args in log:
